@@ -39,6 +39,9 @@ CHECKS = {
  "C12": dict(tech="TLC trace validation of concurrent histories produced under the Go race detector (sensor for the lock discipline)",
     text="Concurrent scenarios (thresholds down to 1 byte, queue length 0..4, seeded delays at hook points) run in a harness built with -race; a race report or panic is a violation, and every recorded history must be accepted by AbsTxn.tla.",
     note="the memory-model clause is decided by the race detector for the schedules executed, not for all schedules; TLA+ contributes the allowed-results oracle"),
+ "C17": dict(tech="TLC model checking of Skiplist.tla (explicit towers, all heights) + replay of every TLC-generated transition on the real skiplist + TLC trace validation of random runs against TraceSortedMap.tla",
+    text="Skiplist.tla mirrors Set/Delete with the update[] vector and nondeterministic tower heights; TLC checks in every state that the level-1 chain is the sorted map, values/tombstones match, Get and LowerBound agree with the map and every level is a subsequence of the one below. Every transition TLC generates is exported (operation path + expected towers) and replayed on the real list with scripted randomLevel draws, comparing towers and Get/LowerBound/Scan/All for every probe; random runs with maxLevel 1..12 and p 0.01..0.99 are judged by TLC against the sorted-map contract.",
+    note="bounded model (2 keys x 2-3 versions, maxLevel <= 3, <= 4 operations); beyond it only sampled sequences; hook: verif-tagged VerifSetRandSource/VerifTowers"),
 }
 
 def main():
